@@ -267,8 +267,11 @@ def run_property(pid: str, tier: str = "quick", seed: int = 0) -> int:
             seen_funcs[ob.func] = ob
     canary_obs = [Obligation(f"canary/{f}", ob.pc, z3.BoolVal(False), ob.labels, {}, f) for f, ob in seen_funcs.items()]
     cres = D.discharge(canary_obs, seed=seed) if canary_obs else {}
+    refuted_in = {ob.func for ob in by["sat"]}
     for cob in canary_obs:
-        if cres[cob.key]["result"] == "unsat":
+        # a function in which some obligation was refuted WITH a model has reachable paths; there, a contradictory path
+        # condition further down is the refuted requires-clause itself, assumed after its call site
+        if cres[cob.key]["result"] == "unsat" and cob.func not in refuted_in:
             vac.append(cob.name)
     canaries["path_condition_canaries"] = len(canary_obs)
     canaries["vacuous_path_conditions"] = vac
